@@ -3,11 +3,11 @@ package main
 // rules_store2.go — persistent store: durability (C09), crash consistency (C10), directory ownership (C17).
 
 import (
-	"os"
 	"fmt"
 	"go/constant"
 	"go/token"
 	"go/types"
+	"os"
 	"strings"
 
 	"golang.org/x/tools/go/ssa"
@@ -512,6 +512,22 @@ func ruleSegmentParts(r *Run, rule string, k *storeKind) {
 		name := w.Name(fn)
 		c := NewCanon(w)
 		n := 0
+		fn := fn
+		// a path parameter's component: the one whose path the caller passes in that position (result index of the path
+		// provider); the order of the path parameters is the helper's own business
+		compOfParam := func(p *ssa.Parameter) int {
+			comp := paramIndex(p) - 2 // (recv, idx, hybrid, vector, text, metadata)
+			for _, caller := range w.Funcs {
+				for _, cs := range callsIn(caller, func(cc *ssa.CallCommon) bool { return staticCallee(cc) == fn }) {
+					if pi := paramIndex(p); pi < len(cs.Common().Args) {
+						if ex, isEx := cs.Common().Args[pi].(*ssa.Extract); isEx {
+							comp = ex.Index
+						}
+					}
+				}
+			}
+			return comp
+		}
 		allInstrs(fn, func(in ssa.Instruction) {
 			call, ok := in.(*ssa.Call)
 			if !ok || calleeName(call.Common()) != "os.Create" {
@@ -523,7 +539,7 @@ func ruleSegmentParts(r *Run, rule string, k *storeKind) {
 			if ex, ok := arg.(*ssa.Extract); ok {
 				comp = ex.Index
 			} else if p, ok := arg.(*ssa.Parameter); ok {
-				comp = paramIndex(p) - 2 // (recv, idx, hybrid, vector, text, metadata)
+				comp = compOfParam(p)
 			}
 			if comp <= 0 {
 				return
@@ -577,7 +593,7 @@ func ruleSegmentParts(r *Run, rule string, k *storeKind) {
 							if ex, ok := cc.Call.Args[0].(*ssa.Extract); ok {
 								comp = ex.Index
 							} else if p, ok := cc.Call.Args[0].(*ssa.Parameter); ok {
-								comp = paramIndex(p) - 2
+								comp = compOfParam(p)
 							}
 						} else {
 							rec(y.Tuple, d+1)
@@ -676,8 +692,12 @@ func ruleSegmentIDs(r *Run, rule string, k *storeKind) {
 		if ph, ok := store.Call.Args[1].(*ssa.Phi); ok {
 			// argmax shape: phi of (max, id) controlled by id > max
 			allInstrs(initFn, func(in ssa.Instruction) {
-				if bo, ok := in.(*ssa.BinOp); ok && bo.Op == token.GTR {
-					if (phiLeafContains(ci, bo.X, "strconv.ParseUint(", 4) || parsedByHelper(w, bo.X) != nil) && (bo.Y == ssa.Value(ph) || isPhiOf(bo.Y, ph)) {
+				if bo, ok := in.(*ssa.BinOp); ok && (bo.Op == token.GTR || bo.Op == token.LSS) {
+					id, cur := bo.X, bo.Y // id > max
+					if bo.Op == token.LSS {
+						id, cur = bo.Y, bo.X // max < id
+					}
+					if (phiLeafContains(ci, id, "strconv.ParseUint(", 4) || parsedByHelper(w, id) != nil) && (cur == ssa.Value(ph) || isPhiOf(cur, ph)) {
 						okMax = true
 					}
 				}
@@ -1077,8 +1097,8 @@ func ruleSegmentLoad(r *Run, p string, k *storeKind) {
 							if !strings.Contains(cs, "segmentManager).list(") || !strings.Contains(cs, "len(") {
 								continue
 							}
-							if _, isRange := d.Cond.(*ssa.BinOp); isRange && isRangeIndex(d.Cond.(*ssa.BinOp).X) {
-								continue // the range loop's own bound test
+							if bo, isRange := d.Cond.(*ssa.BinOp); isRange && isAllIndex(bo.X) && bo.Op == token.LSS {
+								continue // the loop's own bound test (range, or a counter from 0 to len)
 							}
 							x, nonEmpty, okE := nonEmptyCmp(ce, d.Cond)
 							if !okE || !strings.Contains(x, "segmentManager).list(") {
@@ -1236,7 +1256,27 @@ func ruleSegmentLoad(r *Run, p string, k *storeKind) {
 		}
 		r.Check(okDrain, p+".WHOLE", fmt.Sprintf("whole:verify-to-eof#%d", i), w.InstrPos(st)+" "+name, "the concatenated stream is read to EOF with the error checked before caching (gzip verifies the last component's trailer; trailing bytes are rejected)", "the stream is not drained to EOF before the index is cached: the last component's gzip trailer is never verified")
 		// the cached value is the freshly decoded index
-		r.Check(strings.Contains(c.S(st.Val), "NewHybridSearchIndex("), p+".WHOLE", fmt.Sprintf("whole:cached-value#%d", i), w.InstrPos(st)+" "+name, "the cached index is the one just decoded", "cached value is "+c.S(st.Val))
+		cachedOK, cachedIs := strings.Contains(c.S(st.Val), "NewHybridSearchIndex("), c.S(st.Val)
+		if _, isPhi := st.Val.(*ssa.Phi); isPhi && !cachedOK {
+			// the result variable of a loading phase: on every way to the store it holds the index just built
+			paths, trunc := enumPaths(fn.Blocks[0], walkCfg{MaxVisits: 1, MaxPaths: 20000 * pathScale, Decide: decideOnPath,
+				Stop: func(b *ssa.BasicBlock) bool { return b == st.Block() }})
+			n := 0
+			cachedOK = !trunc
+			for _, pth := range paths {
+				if pth.End != EndStop || !pth.Feasible() {
+					continue
+				}
+				n++
+				if v := c.S(resolveOnPath(pth, st.Val)); !strings.Contains(v, "NewHybridSearchIndex(") {
+					cachedOK, cachedIs = false, v
+				}
+			}
+			if n == 0 {
+				cachedOK = false
+			}
+		}
+		r.Check(cachedOK, p+".WHOLE", fmt.Sprintf("whole:cached-value#%d", i), w.InstrPos(st)+" "+name, "the cached index is the one just decoded", "cached value is "+cachedIs)
 	}
 	// every failing step returns a non-nil error: each `err != nil` true branch ends in an error return
 	badFall := ""
